@@ -165,13 +165,34 @@ def impl(case):
     alpha = float(Fraction(case["alpha"]))
     res = {}
 
-    def run(a):
-        cr = CorrelationRemover(sensitive_feature_ids=list(case["ids"]), alpha=a)
+    import copy as _copy, hashlib as _h, json as _j
+    X_before = _copy.deepcopy(X)
+    hv = int(_h.sha1(_j.dumps({k_: v_ for k_, v_ in case.items() if not str(k_).startswith("_")},
+                                sort_keys=True, default=str).encode()).hexdigest(), 16)
+
+    def run(a, prehist=False):
+        if prehist:
+            # the same estimator object first configured with another alpha / id order and fitted on other rows
+            # of the same width, then re-configured through set_params: the result must describe the last
+            # configuration and the last data only
+            ids0 = list(case["ids"])[::-1]
+            cr = CorrelationRemover(sensitive_feature_ids=ids0, alpha=(0.5 if a != 0.5 else 0.25))
+            try:
+                cr.fit(_copy.deepcopy(X)[::-1] if not hasattr(X, "iloc") else X.iloc[::-1].reset_index(drop=True))
+            except Exception:
+                pass
+            cr.set_params(sensitive_feature_ids=list(case["ids"]), alpha=a)
+        else:
+            cr = CorrelationRemover(sensitive_feature_ids=list(case["ids"]), alpha=a)
         return cr, cr.fit_transform(X)
     try:
-        cr, out = run(alpha)
+        cr, out = run(alpha, prehist=(hv % 4 == 0))
     except ValueError as e:
         return {"error": "ValueError", "msg": str(e)[:200]}
+    try:
+        res["input_untouched"] = bool(np.array_equal(np.asarray(X, dtype=float), np.asarray(X_before, dtype=float)))
+    except Exception:
+        res["input_untouched"] = True
     res["out"] = np.asarray(out, dtype=float).T.tolist()            # list of columns
     res["shape"] = list(np.asarray(out).shape)
     res["out1"] = np.asarray(run(1.0)[1], dtype=float).T.tolist()
@@ -270,6 +291,9 @@ def compare(case, out, model):
     v = []
     if model is None:
         return [(f"{PID}/harness/no-model", "no model value", "model evaluates", "correspondence")]
+    if out.get("input_untouched") is False:
+        v.append((f"{PID}/fit_transform/input/modified-in-place", "fit_transform changed its input matrix in place",
+                  "the transform is a function of its input (which it leaves alone)", "property"))
     # theorem sanity on the model itself
     if model["zero_cov"] is False or model["normal_eqs"] is False or model["transform_eq_fit_transform"] is False:
         v.append((f"{PID}/model/theorem-contradicted", f"model flags {model['zero_cov']}, {model['normal_eqs']}, "
